@@ -206,15 +206,10 @@ func (st *state) validate(instance reflect.Value, schema *Schema, callerAnns *an
 
 	// $dynamicRef: https://json-schema.org/draft/2020-12/json-schema-core#section-8.2.3.2
 	if schema.DynamicRef != "" {
-		// The ref behaves lexically or dynamically, but not both.
-		assert((schemaInfo.resolvedDynamicRef == nil) != (schemaInfo.dynamicRefAnchor == ""),
-			"DynamicRef not resolved properly")
-		if schemaInfo.resolvedDynamicRef != nil {
-			// Same as $ref.
-			if err := st.validate(instance, schemaInfo.resolvedDynamicRef, &anns); err != nil {
-				return err
-			}
-		} else {
+		assert(schemaInfo.resolvedDynamicRef != nil, "DynamicRef not resolved properly")
+		// Same as $ref, unless the ref behaves dynamically.
+		dynamicSchema := schemaInfo.resolvedDynamicRef
+		if schemaInfo.dynamicRefAnchor != "" {
 			// Dynamic behavior.
 			// Look for the base of the outermost schema on the stack with this dynamic
 			// anchor. (Yes, outermost: the one farthest from here. This the opposite
@@ -224,7 +219,8 @@ func (st *state) validate(instance reflect.Value, schema *Schema, callerAnns *an
 			// refer to a schema that is not on the stack, but a child of some base
 			// on the stack.
 			// For an example, search for "detached" in testdata/draft2020-12/dynamicRef.json.
-			var dynamicSchema *Schema
+			// If no schema resource on the stack declares the anchor, the lexically
+			// referenced schema (which does declare it) is the outermost one.
 			for _, s := range st.stack {
 				base := st.rs.resolvedInfos[s].base
 				info, ok := st.rs.resolvedInfos[base].anchors[schemaInfo.dynamicRefAnchor]
@@ -233,12 +229,9 @@ func (st *state) validate(instance reflect.Value, schema *Schema, callerAnns *an
 					break
 				}
 			}
-			if dynamicSchema == nil {
-				return fmt.Errorf("missing dynamic anchor %q", schemaInfo.dynamicRefAnchor)
-			}
-			if err := st.validate(instance, dynamicSchema, &anns); err != nil {
-				return err
-			}
+		}
+		if err := st.validate(instance, dynamicSchema, &anns); err != nil {
+			return err
 		}
 	}
 
@@ -650,12 +643,10 @@ func (st *state) resolveDynamicRef(schema *Schema) (*Schema, error) {
 		return nil, nil
 	}
 	info := st.rs.resolvedInfos[schema]
-	// The ref behaves lexically or dynamically, but not both.
-	assert((info.resolvedDynamicRef == nil) != (info.dynamicRefAnchor == ""),
-		"DynamicRef not statically resolved properly")
-	if r := info.resolvedDynamicRef; r != nil {
+	assert(info.resolvedDynamicRef != nil, "DynamicRef not statically resolved properly")
+	if info.dynamicRefAnchor == "" {
 		// Same as $ref.
-		return r, nil
+		return info.resolvedDynamicRef, nil
 	}
 	// Dynamic behavior.
 	// Look for the base of the outermost schema on the stack with this dynamic
@@ -673,7 +664,9 @@ func (st *state) resolveDynamicRef(schema *Schema) (*Schema, error) {
 			return info.schema, nil
 		}
 	}
-	return nil, fmt.Errorf("missing dynamic anchor %q", info.dynamicRefAnchor)
+	// No schema resource on the stack declares the anchor: the lexically
+	// referenced schema is the outermost one that does.
+	return info.resolvedDynamicRef, nil
 }
 
 // ApplyDefaults modifies an instance by applying the schema's defaults to it. If
